@@ -13,11 +13,17 @@ def _ids_seq(ids):
 def _ids_set(ids):
     return "{" + ", ".join(sorted({_id(i) for i in ids})) + "}"
 
+def _atom(k):
+    """'task.point.output' -> <<task, point, output>> (point may be negative)"""
+    name, rest = k.split(".", 1)
+    pt, out = rest.split(".", 1)
+    return "<<%s, %d, %s>>" % (tla(name), int(pt), tla(out))
+
 def task_tla(t):
     f = [
         ("id", _id(t["id"])), ("st", tla(t["st"])), ("held", tla(t["held"])), ("queued", tla(t["queued"])),
         ("rh", tla(t["rh"])), ("flows", tla(set(t["flows"]))), ("sub", str(t["sub"])),
-        ("outs", tla(set(t["outs"]))), ("sat", tla(set(t["sat"].keys()))),
+        ("outs", tla(set(t["outs"]))), ("sat", "{" + ", ".join(sorted(_atom(k) for k in t["sat"])) + "}"),
         ("manual", tla(t["manual"])), ("preok", tla(all(p["ok"] for p in t["pre"]))),
         ("xok", tla(all(t["xsat"].values()) if t["xsat"] else True)),
         ("complete", tla(t["complete"])), ("fwait", tla(t["fwait"])),
@@ -81,6 +87,8 @@ def event_tla(ev):
         f += _sync_fields(ev["sync"], ev.get("db"))
     elif e == "boot":
         f += [("restart", tla(ev["restart"]))] + _sync_fields(ev["sync"], None)
+    elif e == "cmd_done":
+        f += [("name", tla(ev["name"]))] + _sync_fields(ev["sync"], None)
     elif e in ("set_stop",):
         f += [("mode", tla(ev["mode"] or "none"))] + _sync_fields(ev["sync"], None)
     elif e == "stall":
@@ -101,7 +109,7 @@ def event_tla(ev):
         return None
     return "[" + ", ".join(f"{k} |-> {v}" for k, v in f) + "]"
 
-KEEP = {"env_job", "sched_stop", "restored", "crash", "env_launch", "spawn", "remove", "state", "prepare", "msg", "q_release", "rh_compute", "loop_end", "boot", "set_stop",
+KEEP = {"cmd_done", "env_job", "sched_stop", "restored", "crash", "env_launch", "spawn", "remove", "state", "prepare", "msg", "q_release", "rh_compute", "loop_end", "boot", "set_stop",
         "stall", "end"}
 
 def run_tla(w_tla: str, events: list, opt: dict):
